@@ -24,6 +24,8 @@ def run(chk):
         ("SetWideBytes len", lambda: K.k_len_reject(base, chk, prog.find("Element).SetWideBytes"), 64, ET, "Element.SetWideBytes")),
     ]
     run_kernels(chk, items)
+    from sym import validate
+    validate.field_kernels(base, chk, 200 if chk.tier == "thorough" else 12)
     # composition facts (arithmetic, decided by z3): canonical encoding is injective on [0,p) and non-canonical inputs fold
     import z3, time
     t0 = time.time()
